@@ -314,7 +314,7 @@ def render_v2(doc):
             pairs = [("name", nm), ("type", typ), ("message", msg), ("signed_by", rby)]
             payload = ["message"]
         elif typ == "sgx_attestation_key":
-            auth = bytes(rng.randrange(256) for _ in range(rng.choice([32, 32, 1, 100])))
+            auth = bytes(rng.randrange(256) for _ in range(rng.choice([32, 32, 1, 100, 0])))
             raw = _raw64(keys[j])
             rd = hashlib.sha256(raw + auth).digest()
             body = _report_body(rng, rd)
@@ -389,7 +389,9 @@ def render_v2(doc):
             if typ == "x509_pem":
                 o = _set_last(o, "message", rng.choice(BAD_B64), rng)
             else:
-                o = _set_last(o, rng.choice(payload), rng.choice(BAD_HEX), rng)
+                f = rng.choice(payload)
+                # an empty auth_data is a legitimate value (zero-length QE authentication data)
+                o = _set_last(o, f, rng.choice([b for b in BAD_HEX if not (f == "auth_data" and b == "")]), rng)
         elif fld == "type_missing":
             o = _drop(o, "type")
         elif fld == "type_unknown":
